@@ -40,7 +40,7 @@ PROP = {
          "env": {"ASAN_OPTIONS": "detect_leaks=0"}},
         {"mon": "mon_c10", "cfg": "cov", "cases": _q(0, 40000), "args": ["--mode", "hostile"] + _BIG, "seed_off": 88, "shards": 4,
          "env": _cov.env_for("mon_c10")},
-        {"mon": "fuzz_c10", "cfg": "fuzz", "cases": _q(160000, 16000000), "seed_off": 77},
+        {"mon": "fuzz_c10", "cfg": "fuzz", "cases": _q(160000, 4000000), "seed_off": 77},
         {"mon": "mon_c10", "cfg": "valgrind", "cases": _q(1600, 80000), "args": ["--mode", "hostile", "--time_limit", "900", "--maxexp_bool", "62", "--maxexp_other", "40"],
          "seed_off": 66, "prefix": ["valgrind", "-q", "--error-exitcode=99", "--track-origins=no", "--leak-check=no"]},
     ],
